@@ -425,6 +425,7 @@ class TaskState:
         self.streams = [make_stream(s) for s in tspec.get("streams", [])]
         self.records = []
         self.modes = {}  # id(parser) -> error mode the harness last asked for
+        self.cur_opts = {i: list(ss["o"]) for i, ss in enumerate(tspec.get("streams", []))}
         self.finished = False
 
     def body(self, task=None):
@@ -470,6 +471,15 @@ class TaskState:
             fs = seams.cur_fs()
             fs.files[op["path"]] = op["text"].encode("utf-8")
             return {"op": "write", "kind": "write", "norm": [op["path"], dig(op["text"])], "raw": None, "snap": None, "draws": [], "reads": 0, "toks": 0, "dirty": []}
+        if kind == "setopts":  # the caller changes the print options of a live stream (public dataclass attribute)
+            ge = self.streams[op["s"]]
+            o = op["o"]
+            if op.get("how") == "replace":
+                ge.options = type(ge.options)(print_source=o[0], print_ast=o[1], print_pickles=o[2])
+            else:
+                ge.options.print_source, ge.options.print_ast, ge.options.print_pickles = o
+            self.cur_opts[op["s"]] = list(o)
+            return {"op": "setopts", "kind": "setopts", "norm": [op["s"], o], "raw": None, "snap": None, "draws": [], "reads": 0, "toks": 0, "dirty": []}
         if kind == "stream":
             from .stream_ops import run_stream
             return run_stream(self, op)
